@@ -796,6 +796,24 @@ theorem ignore_exact_keeps_unflushed :
     let st := run ⟨true, true, true⟩ St.init ignoreTrace
     st.groupAck = -1 ∧ st.memMut.length = 2 := by decide
 
+/-- WITNESS 5 (same wrong shape of `IgnoreMessage`, reached through the OTHER caller: `partition.replica`
+when `GetMessage` fails): entries 0, 1 flushed, 2 and 3 applied but not flushed, entry 4 cannot be read:
+the acknowledged position jumps to 4 over the unflushed 2 and 3; after a crash the replicator resumes at 5. -/
+def getFailTrace : List Ev :=
+  [.append 0 0] ++ applyRound ++ [.append 1 1] ++ applyRound ++ flushRound ++
+  [.append 0 1] ++ applyRound ++ [.append 1 0] ++ applyRound ++ [.appendBad, .applyGetFail] ++
+  [.crash, .recover, .rewind] ++ rounds 3
+
+theorem getfail_any_skips_unflushed :
+    let st := run ⟨true, true, false⟩ St.init getFailTrace
+    st.groupAck = 4 ∧ st.stored = some 1 ∧ st.consumed = 4 ∧ (fileRows st).length = 2 ∧ st.memMut = [] := by decide
+
+/-- with the exact condition the same history keeps both entries: the ack stays at the stored sequence,
+2 and 3 are replayed (the unreadable entry is consumed again and skipped again) -/
+theorem getfail_exact_keeps_unflushed :
+    let st := run ⟨true, true, true⟩ St.init getFailTrace
+    st.groupAck = 1 ∧ st.stored = some 1 ∧ st.memMut.length = 2 ∧ st.consumed = 4 := by decide
+
 end Neg
 
 /-- the bare inequality `groupAck ≤ stored` does NOT hold once corrupt entries exist: a corrupt entry
@@ -812,6 +830,81 @@ theorem ignore_is_next_only :
     ignoreMessageCalls = ["r.AckIndex", "r.SetAckIndex"] ∧
     replicaCalls.filter (fun s => s ∈ ["reader.Uncompress", "defer:r.IgnoreMessage", "defer:family.CommitSequence"])
       = ["reader.Uncompress", "defer:r.IgnoreMessage", "defer:family.CommitSequence"] := by decide
+
+/-! ### the `GetMessage`-failure branch of `partition.replica` (round 12)
+
+`partition.replica`: `seq := Consume(); data, err := GetMessage(seq); if err != nil { IgnoreMessage(seq) } else
+{ Replica(seq, data) }`. The error branch is the model event `applyGetFail` (enabled on an unreadable
+entry): the consumer group moves, `Replica` does not run, so the family's sequence is NOT committed —
+unlike the decompress failure inside `Replica` (`applyBegin` on a corrupt entry: `IgnoreMessage` AND
+`CommitSequence`). All theorems above quantify over histories that contain this event. -/
+
+/-- `IgnoreMessage` (the shape in /repo) moves the acknowledged position by at most one entry, and only
+onto the entry it was called for, which then is the one right behind the old position and already
+consumed — for every state, reachable or not -/
+theorem ignore_moves_ack_onto_next_only (cfg : Cfg) (hc : cfg.ignoreExact = true) (st : St) (s : Int) :
+    (ignoreMsg cfg st s).groupAck = st.groupAck ∨
+    (s = st.groupAck + 1 ∧ s ≤ st.consumed ∧ (ignoreMsg cfg st s).groupAck = s) := by
+  unfold ignoreMsg ackTo
+  rw [hc]
+  simp only [if_true]
+  split
+  · split
+    · rename_i h1 h2
+      exact Or.inr ⟨h1.symm, h2.2, rfl⟩
+    · exact Or.inl rfl
+  · exact Or.inl rfl
+
+/-- a failed `GetMessage` touches the consumer group only: log, family sequence, memory databases, data
+files, stored sequence and dictionaries are what they were (every state, every `Cfg`) -/
+theorem getfail_touches_only_the_group (cfg : Cfg) (st : St) :
+    (step cfg st .applyGetFail).seq = st.seq ∧ (step cfg st .applyGetFail).stored = st.stored ∧
+    (step cfg st .applyGetFail).files = st.files ∧ (step cfg st .applyGetFail).memMut = st.memMut ∧
+    (step cfg st .applyGetFail).frozen = st.frozen ∧ (step cfg st .applyGetFail).log = st.log ∧
+    (step cfg st .applyGetFail).inflight = st.inflight ∧ (step cfg st .applyGetFail).gcLow = st.gcLow ∧
+    st.consumed ≤ (step cfg st .applyGetFail).consumed ∧
+    (step cfg st .applyGetFail).consumed ≤ st.consumed + 1 := by
+  simp only [step, whenRunning, doApplyGetFail, ignoreMsg, ackTo]
+  repeat' split
+  all_goals (refine ⟨rfl, rfl, rfl, rfl, rfl, rfl, rfl, rfl, ?_, ?_⟩ <;> (try simp only []) <;> omega)
+
+/-- The family's sequence may lag behind the acknowledged position — but only over unreadable entries:
+in every reachable idle running state every entry above the family's sequence and at or below the group
+ack carries no rows. (Before the `GetMessage` branch was modelled the family's sequence was never below
+the ack; now it can be, and this is the statement that keeps `ValidateSequence` sound: the entries the
+family has not seen and the log no longer offers are exactly the ones with nothing to apply.) -/
+theorem ack_past_family_seq_only_over_unreadable (cfg : Cfg) (hx : cfg.ignoreExact = true)
+    (hc : cfg.atomicAcquire = true) (evs : List Ev)
+    (hr : (run cfg St.init evs).phase = .running) (hn : (run cfg St.init evs).inflight = none)
+    (s : Int) (h1 : ov (run cfg St.init evs).seq < s) (h2 : s ≤ (run cfg St.init evs).groupAck) :
+    Bad (run cfg St.init evs) s := by
+  have hi := inv_run cfg hx evs (gapFree_init cfg hc evs) inv_init
+  exact hi.idle hr hn s h1 (Int.le_trans h2 hi.ack_cons)
+
+/-- non-vacuity: an unreadable entry right behind a fully flushed log is acknowledged by the failed
+`GetMessage` while the family's sequence stays below it; a later valid entry still passes validation,
+is flushed, and the stored sequence catches up -/
+example :
+    (let st := run ⟨true, true, true⟩ St.init ([.append 0 0] ++ applyRound ++ flushRound ++ [.appendBad, .applyGetFail])
+     st.groupAck = 1 ∧ st.seq = some 0 ∧ st.stored = some 0 ∧ st.consumed = 1 ∧ Bad st 1 ∧
+     st.phase = .running ∧ st.inflight = none) ∧
+    (let st := run ⟨true, true, true⟩ St.init ([.append 0 0] ++ applyRound ++ flushRound ++ [.appendBad, .applyGetFail] ++
+       [.append 1 1] ++ applyRound ++ flushRound)
+     st.groupAck = 2 ∧ st.seq = some 2 ∧ st.stored = some 2 ∧ (fileRows st).length = 2) ∧
+    -- not the next entry: nothing is acknowledged, the family's sequence stays
+    (let st := run ⟨true, true, true⟩ St.init ([.append 0 0] ++ applyRound ++ [.appendBad, .applyGetFail])
+     st.groupAck = -1 ∧ st.seq = some 0 ∧ st.consumed = 1) := by decide
+
+open LinVerif.Generated.C07 in
+/-- `partition.replica` as data flow: the sequence handed to `GetMessage`, `IgnoreMessage` and `Replica` is
+the one `Consume` returned; the error branch of `GetMessage` calls `IgnoreMessage(seq)` and no other method
+of the replicator (in particular not `Replica`: no validation, no `CommitSequence` — the event
+`applyGetFail`), the else branch calls `Replica(seq, data)` and nothing else (the events `applyRound`) -/
+theorem getfail_branch_is_ignore_only :
+    partitionReplicaBranches =
+      ["if:replicator.IsReady() && replicator.Connect()", "assign:seq := replicator.Consume()", "if:seq >= 0",
+       "assign:data, err := replicator.GetMessage(seq)", "then:replicator.IgnoreMessage(seq)",
+       "else:replicator.Replica(seq, data)"] := by decide
 
 /-! ### WAL garbage collection (non-vacuity of `walExpire`) -/
 
